@@ -51,6 +51,7 @@ type changedHandle struct {
 type obs struct {
 	Target  string          `json:"target"`
 	Walk    int             `json:"walk"`
+	Init    string          `json:"init"`
 	Step    int             `json:"step"`
 	Kind    string          `json:"kind"`
 	Op      string          `json:"op"`
@@ -502,6 +503,17 @@ var leakedSubs atomic.Int64
 type env struct {
 	r *rand.Rand
 	t *tracker
+	// present: the walk's construction (Isolation.tla InitKinds): "present" = initial value / records / positions are
+	// configured, "absent" = the object is constructed holding nothing (or only what its package defaults give it)
+	present bool
+}
+
+// initialIDs: the ids of the initial records of a collection-like object.
+func (e *env) initialIDs() []string {
+	if !e.present {
+		return nil
+	}
+	return strPool[:1+e.r.Intn(2)]
 }
 
 func (e *env) in(m proto.Message) proto.Message { e.t.in(m); return m }
